@@ -1072,6 +1072,24 @@ def replay_file(pid, path):
         p = subprocess.run([b, 'run', path], capture_output=True, text=True)
         print(p.stdout)
         return 1 if p.returncode == 1 else 0
+    if doc.get('bounded_failures'):
+        # the violation was an execution of the real code by a bounded stand-in (CPython twin, determinism, derive twin, statistics, snapshot round trips): run that stand-in again
+        rc = 0
+        seed = int(os.environ.get('VERIF_SEED', '0') or 0)
+        for bf in doc['bounded_failures']:
+            leg = next((l for l in PROPS[pid]['legs'] if l.get('name') == bf.get('name')), None)
+            if leg is None:
+                print('bounded stand-in %s is no longer part of the check of %s' % (bf.get('name'), pid))
+                continue
+            try:
+                r = run_bounded(pid, leg, seed)
+            except Undecided as e:
+                print('bounded stand-in %s could not be re-run: %s' % (leg['name'], e))
+                return 2
+            print('bounded stand-in %s re-executed on the real code: %s %s' % (leg['name'], r['status'], json.dumps(r.get('output'))[:800]))
+            if r['status'] == 'failed':
+                rc = 1
+        return rc
     print('no failing input recorded (no-failing-input-found): the replay file carries the verifier output only')
     return 1 if doc.get('failed_obligations') else 0
 
